@@ -15,6 +15,7 @@ import Pff.Model.Run
 import Pff.Model.Csv
 import Pff.Model.Path
 import Pff.Model.RfigcDb
+import Pff.Model.Hasher
 /-!
 Line-protocol driver: one request per line on stdin, one canonical reply per line on stdout.
 Run with `lake env lean --run Pff/Driver.lean`. Byte strings are hex ("-" = empty); lists of
@@ -613,6 +614,14 @@ def handle (toks : List String) : String :=
       let back := Pff.RfigcDb.readDb (Pff.Csv.writeRows [Pff.RfigcDb.header, Pff.RfigcDb.rowFields r])
       s!"{",".intercalate ((Pff.RfigcDb.rowFields r).map showCps)} {if back == some [r] then "roundtrip" else "LOST"}"
     | _, _, _, _, _, _ => "bad-op"
+  | ["hasher", algo, m5, s2] =>
+    -- `Hasher(algo).hash(m)` from the two hex digests of m, and `len(Hasher(algo))`
+    match hexToString algo, parseHex m5, parseHex s2 with
+    | some algo, some m5, some s2 =>
+      let h := match Pff.Hasher.hash algo m5 s2 with | some v => toHex v | none => "NameError"
+      let l := match Pff.Hasher.length algo with | some n => toString n | none => "NameError"
+      s!"{h} {l}"
+    | _, _, _ => "bad-op"
   | ["diffbytes", bs, s1, s2, a, b] =>
     match bs.toNat?, s1.toNat?, s2.toNat?, parseHex a, parseHex b with
     | some bs, some s1, some s2, some a, some b =>
